@@ -191,7 +191,7 @@ func builtins() []funcEntry {
 				return
 			}
 			name := p.Name + ":" + fi.Name
-			if name == "common-lisp-user:"+markName {
+			if name == "common-lisp-user:"+markName || name == "common-lisp-user:"+initName {
 				return
 			}
 			if _, has := funcByName[name]; !has {
